@@ -493,3 +493,28 @@ ADDENDA3 = {
     "C19": _GUARD + _CTYPES + " Round 2: the caller's distance matrix is never written; every child is converted recursively; inner-node "
            "`label:distance` parsing.",
 }
+
+# rounds 7 / 8 of the seeded changes, benign batch 8
+ADDENDA4 = {
+    "C01": " Rounds 7/8: the four-way index dispatch of AtomArray as a whole function; element assignment loops over the array's categories; "
+           "a sub-array of an array with an empty bond list keeps a bond list.",
+    "C03": " Round 8: common_alphabet by ways through its loop (kept only where it extends, replaced only by an extending one). A new instance "
+           "attribute of a class (a memo) ends as cannot-decide.",
+    "C04": " Rounds 7/8: what a residue is (all four annotations), look-ups never in truth position, case folding only on enumerated keywords.",
+    "C05": " Rounds 7/8: serialised before the target is opened; the decimal search ends (fix 9a0c74c5); results of _compress_data are built from "
+           "the array; astype only in as_array; an assigned element is an object of the container or deserialised on the way in.",
+    "C06": " Rounds 7/8: text / binary test of biotite.file; equality of the leaf classes covers data and mask / array and encoding; a ';' line "
+           "opens or closes a text field by the open-flag alone.",
+    "C07": " Round 7: ATOM and HETATM both count as atom records wherever the reader looks for them.",
+    "C11": " Round 8: FastaFile line index - a write in the middle needs the re-indexer on every way out (by-hand shifts: cannot decide); enum "
+           "members pairwise distinct.",
+    "C12": " Rounds 7/8: the two FASTQ readers step the shared parser state alike (sibling cross-check by ways through the loops); a write in the "
+           "middle of the line list shifts or rebuilds every field of the index.",
+    "C13": " Round 8: equality (and so set membership) of Location / Feature / Annotation / AnnotatedSequence covers everything the constructor "
+           "stores; enum members pairwise distinct.",
+    "C15": " Round 7: the order of principal components is realised by the rotation, not by permuting columns afterwards.",
+    "C17": " Round 7: residue definition shared with C04; sub-arrays keep an empty bond list.",
+    "C18": " Round 8: the numeric components of an SD metadata key are normalised independently.",
+    "C20": " Rounds 7/8: temporary files removed unconditionally, and files removed only in clean_up(); MAFFT label pattern; the timeout test says "
+           "nothing about the timeout but 'given' and 'exceeded'.",
+}
